@@ -230,7 +230,7 @@ impl Check for C13 {
         true
     }
     fn watchdog_s(&self) -> u64 {
-        30
+        60
     }
     fn n_cases(&self, tier: Tier) -> u64 {
         match tier {
